@@ -34,7 +34,9 @@ FIELDS = [
 def accept_cases():
     out = []
     for fi, (ty, g, w, inst, v, v2) in enumerate(FIELDS):
-        for style in ("tuple", "named"):
+        # the single named field is spelled `inner` or, for every third field type, with a raw identifier (a keyword as a name)
+        for style in ("tuple", "named") + (("named_raw",) if fi % 3 == 0 else ()):
+            fname = {"named": "inner", "named_raw": ("r#type", "r#ref", "r#fn")[(fi // 3) % 3]}.get(style)
             for entry in ("attr", "derive"):
                 for traits in ("Deref, DerefMut", "Deref"):
                     head = f"#[::derive_ex::derive_ex({traits})]\n" if entry == "attr" else f"#[derive(::derive_ex::Ex)]\n#[derive_ex({traits})]\n"
@@ -42,8 +44,8 @@ def accept_cases():
                         item = f"pub struct Ty{g}(pub {ty}) {w};"
                         ctor, acc = f"Ty({v})", "x.0"
                     else:
-                        item = f"pub struct Ty{g} {w} {{ pub inner: {ty} }}"
-                        ctor, acc = f"Ty {{ inner: {v} }}", "x.inner"
+                        item = f"pub struct Ty{g} {w} {{ pub {fname}: {ty} }}"
+                        ctor, acc = f"Ty {{ {fname}: {v} }}", f"x.{fname}"
                     tyi = ty.replace("'a", "'static")
                     # concrete field type of the instantiation
                     conc = {"<u16>": tyi.replace("T", "u16"), "<i64>": "i64", "<u8, bool>": "(u8, bool)", "<3>": "[u8; 3]",
